@@ -286,6 +286,7 @@ impl LinkRelay<OutputHandle> {
     }
 
 //@@ fn file=fe2o3-amqp/src/link/mod.rs impl=`impl LinkRelay<OutputHandle>` name=abandon_pending_deliveries
+//@@ shape loops=while
 //@@ selfmut
 //@@ subst `unsettled.write()` => `&mut *unsettled` rule=R4
 //@@ subst `guard.as_mut()` => `guard` rule=R15
